@@ -28,4 +28,5 @@ def run(ctx):
     E.r_fifo(prog, rep)
     E.r_outstanding_count(prog, rep)
     E.r_waitcount(prog, rep)
+    E.run_all(prog, rep)        # every other engine rule: this property is anchored in the whole engine
 from rules.engine_variants import C06 as VARIANTS  # noqa: E402
